@@ -26,6 +26,10 @@ import (
 
 var StructImpls = []string{"reflect-struct", "node-struct", "reflect-structmap", "node-structmap"}
 
+// StructValImpls hold list entries by value ([]T instead of []*T): growing the slice moves the entries.
+// Only nodeutil.Reflect serves such lists (nodeutil.Node states "need pointer to struct").
+var StructValImpls = []string{"reflect-structval"}
+
 func IsStructImpl(impl string) bool { return strings.Contains(impl, "-struct") }
 
 type structStore struct {
@@ -41,7 +45,7 @@ func NewFor(impl string, m *meta.Module) Store {
 		return New(impl)
 	}
 	maps := strings.HasSuffix(impl, "structmap")
-	t := structTypeFor(m.DataDefinitions(), maps, "Root")
+	t := structTypeFor(m.DataDefinitions(), layout{maps: maps, vals: strings.HasSuffix(impl, "structval")}, "Root")
 	root := reflect.New(t)
 	s := &structStore{name: impl, root: root, maps: maps}
 	if strings.HasPrefix(impl, "reflect-") {
@@ -58,6 +62,10 @@ func (s *structStore) MapLists() bool  { return s.maps }
 func (s *structStore) Snapshot(m *meta.Module) *model.Tree {
 	return inspectVal(m.DataDefinitions(), s.root)
 }
+
+// layout of lists in a generated struct type: map keyed by the first key leaf, slice of struct
+// values, or (default) slice of pointers
+type layout struct{ maps, vals bool }
 
 func goScalarType(t *meta.Type) reflect.Type {
 	switch t.Format().Single() {
@@ -87,13 +95,14 @@ func goScalarType(t *meta.Type) reflect.Type {
 	return nil
 }
 
-func structTypeFor(defs []meta.Definition, maps bool, name string) reflect.Type {
+func structTypeFor(defs []meta.Definition, lay layout, name string) reflect.Type {
+	maps := lay.maps
 	var fields []reflect.StructField
 	for _, d := range model.FlatDefs(defs) {
 		f := reflect.StructField{Name: nodeutil.MetaNameToFieldName(d.Ident())}
 		switch x := d.(type) {
 		case *meta.List:
-			et := reflect.PointerTo(structTypeFor(x.DataDefinitions(), maps, name+f.Name))
+			et := reflect.PointerTo(structTypeFor(x.DataDefinitions(), lay, name+f.Name))
 			km := x.KeyMeta()
 			if maps && len(km) >= 1 {
 				kt := goScalarType(km[0].Type())
@@ -101,11 +110,13 @@ func structTypeFor(defs []meta.Definition, maps bool, name string) reflect.Type 
 					panic("unsupported key type")
 				}
 				f.Type = reflect.MapOf(kt, et)
+			} else if lay.vals {
+				f.Type = reflect.SliceOf(et.Elem())
 			} else {
 				f.Type = reflect.SliceOf(et)
 			}
 		case meta.HasDataDefinitions:
-			f.Type = reflect.PointerTo(structTypeFor(x.DataDefinitions(), maps, name+f.Name))
+			f.Type = reflect.PointerTo(structTypeFor(x.DataDefinitions(), lay, name+f.Name))
 		case meta.Leafable:
 			st := goScalarType(x.Type())
 			if st == nil {
@@ -189,12 +200,21 @@ func fillStruct(defs []meta.Definition, t *model.Tree, dst reflect.Value) bool {
 				continue
 			}
 			sl := reflect.MakeSlice(f.Type(), 0, len(l.Entries))
+			byValue := f.Type().Elem().Kind() == reflect.Struct
 			for _, e := range l.Entries {
-				ev := reflect.New(f.Type().Elem().Elem())
+				st := f.Type().Elem()
+				if !byValue {
+					st = st.Elem()
+				}
+				ev := reflect.New(st)
 				if !fillStruct(x.DataDefinitions(), e, ev.Elem()) {
 					return false
 				}
-				sl = reflect.Append(sl, ev)
+				if byValue {
+					sl = reflect.Append(sl, ev.Elem())
+				} else {
+					sl = reflect.Append(sl, ev)
+				}
 			}
 			f.Set(sl)
 		case meta.HasDataDefinitions:
